@@ -60,7 +60,9 @@ HookScript(h) == CASE h = "none" -> None
                     [] h = "statusbody" -> << <<"in">>, <<"status", 503>>, <<"write", 4, "full">>, <<"out">> >>
 OnErr == << <<"in">>, <<"status", 500>>, <<"out">> >>
 LineFor(h) == LET d == IdealDispatch(chain, OnErr, HookScript(h)) IN
-              [chain |-> src, n |-> Len(chain), log |-> d.log, under |-> d.w.under, escaped |-> d.escaped, hooked |-> d.hooked,
+              [chain |-> src, n |-> Len(chain), log |-> d.log,
+               clog |-> log,       \* what the CURSOR machine (Context.Next as written) logs: beyond the sentinel it differs from the ideal (F20)
+               under |-> d.w.under, escaped |-> d.escaped, hooked |-> d.hooked,
                checkw |-> TRUE, onerror |-> OnErr] @@ (IF h = "none" THEN <<>> ELSE [hook |-> HookScript(h)])
 Emit == ~Done \/ \A h \in Hooks : PrintT(ToJson(LineFor(h)))
 \* C08/C09 on the ideal dispatch (the writer functions mirror response_wirter.go, OneCommit is the statement)
